@@ -15,8 +15,13 @@ the first operation and after every operation:
   cs  the command and redo stacks of the AddData / RemoveData commands, with what each command
       object recorded at its last do() (AddData._added, RemoveData._index)
 
-The Lean driver runs the same ops on the `Impl` model (comparison (a): snapshots equal) and
-evaluates the Spec predicate `specOk` on every python snapshot (comparison (c)).
+  h   the hub's delay state: (_delay_depth, queued DataCollectionAdd / Delete messages in order)
+
+Ops `dopen` / `dclose` enter / leave a `with dc.hub.delay_callbacks():` block (they nest); collection
+ops inside a block only queue their messages, the group handlers run when the outermost block
+closes.  The Lean driver runs the same ops on the `Delay.Impl` model (comparison (a): snapshots
+equal, inside blocks too) and evaluates the Spec predicate `specOk` on every python snapshot taken
+while no block is open (comparison (c)).
 """
 import gc
 import itertools
@@ -53,6 +58,7 @@ class World:
         self.groups = []
         self.gid = {}
         self.names = {}
+        self.blocks = []  # the open `hub.delay_callbacks()` context managers, innermost last
         self.dc = DataCollection()
         self.keep.extend(self.data)
         self.keep.append(self.dc)
@@ -113,7 +119,15 @@ class World:
             if op[2] < nd:
                 dc['d%i' % op[1]] = self.data[op[2]]
         elif k == 'rst':
-            self.restore()
+            if not self.blocks:  # saving a session in the middle of a delay block is out of scope
+                self.restore()
+        elif k == 'dopen':
+            cm = dc.hub.delay_callbacks()
+            cm.__enter__()
+            self.blocks.append(cm)
+        elif k == 'dclose':
+            if self.blocks:
+                self.blocks.pop().__exit__(None, None, None)
         elif k in ('ca', 'cr'):
             if op[1] < nd:
                 cls = AddData if k == 'ca' else RemoveData
@@ -260,7 +274,22 @@ class World:
                 ['gv'] + [self._vals(g) for g in self.groups],
                 ['lb'] + lb,
                 ['rd'] + rd,
-                ['cs', self._cmds(self.stack._command_stack), self._cmds(self.stack._undo_stack)]]
+                ['cs', self._cmds(self.stack._command_stack), self._cmds(self.stack._undo_stack)],
+                ['h', self._depth(hub)] + self._queued(hub)]
+
+    @staticmethod
+    def _depth(hub):
+        k = getattr(hub, '_delay_depth', 'X')
+        return k if type(k) is int and k >= 0 and bool(hub._paused) == (k > 0) else 'X'
+
+    def _queued(self, hub):
+        out = []
+        for m in list(hub._queue):
+            if type(m) is DataCollectionAddMessage and m.sender is self.dc:
+                out.append(['A', self._d(m.data)])
+            elif type(m) is DataCollectionDeleteMessage and m.sender is self.dc:
+                out.append(['X', self._d(m.data)])
+        return out
 
     def _cmds(self, cmds):
         # the command objects with what their last do() recorded (fix F4b): AddData._added,
@@ -342,6 +371,34 @@ POS_PREFIX = [['ext', 0, 1, 2], ['ng']]
 POS = [['cr', 0], ['cr', 1], ['cr', 2], ['ca', 1], ['undo'], ['redo'], ['rem', 1], ['rem', 2], ['ins', 0, 2], ['ng']]
 
 
+# ops tried inside delay blocks next to each other (pairs): everything that broadcasts a collection
+# message, creates / removes a group, or reads the collection to decide what to do
+INBLOCK = EXT + [['app', 1], ['app', 2], ['rem', 0], ['rem', 1], ['ng'], ['rg', 0], ['clr']]
+BLOCK_PREFIXES = [[['ng']], [['app', 0], ['ng']], [['ext', 0, 1, 2], ['ng'], ['rg', 0], ['ng']]]
+
+
+def with_block(ops, i, j):
+    """`dopen` before ops[i], `dclose` after ops[j-1]."""
+    return ops[:i] + [['dopen']] + ops[i:j] + [['dclose']] + ops[j:]
+
+
+def placements(n, min_len=1):
+    return [(i, j) for i in range(n) for j in range(i + min_len, n + 1)]
+
+
+def two_blocks(ops):
+    """All ways to put two delay blocks around sub-histories of `ops`: nested or one after the other."""
+    n = len(ops)
+    for (i1, j1) in placements(n):
+        for (i2, j2) in placements(n):
+            if i1 <= i2 and j2 <= j1:  # second inside the first (possibly the same span)
+                inner = with_block(ops, i2, j2)
+                # positions shift: the outer block opens before the inner `dopen`, closes after `dclose`
+                yield inner[:i1] + [['dopen']] + inner[i1:j1 + 2] + [['dclose']] + inner[j1 + 2:]
+            elif j1 <= i2:             # one after the other
+                yield with_block(with_block(ops, i2, j2), i1, j1)
+
+
 def sequences(alphabet, length):
     def rec(prefix):
         if len(prefix) == length:
@@ -386,9 +443,19 @@ def random_op(rng, nd, made):
     return ['app', d()]
 
 
-def random_seq(rng, length, max_groups=4):
-    ops, nd, made = [], ND, 0
+def random_seq(rng, length, max_groups=4, delay=0.0):
+    """`delay` > 0: `dopen` / `dclose` are mixed in (nesting <= 3, blocks of ~4 ops; most histories
+    end with all blocks closed)."""
+    ops, nd, made, depth = [], ND, 0, 0
     while len(ops) < length:
+        if delay and rng.random() < (delay if depth == 0 else 0.28):
+            if depth and rng.random() < 0.7:
+                ops.append(['dclose'])
+                depth -= 1
+            elif depth < 3:
+                ops.append(['dopen'])
+                depth += 1
+            continue
         op = random_op(rng, nd, made)
         if op[0] == 'ng':
             if made >= max_groups:
@@ -397,6 +464,8 @@ def random_seq(rng, length, max_groups=4):
         if op[0] == 'mrg':
             nd += 1
         ops.append(op)
+    if depth and rng.random() < 0.8:
+        ops.extend([['dclose']] * depth)
     return ops
 
 
@@ -432,8 +501,49 @@ class Seq(Family):
                     [['ext', 0, 1, 2], ['ng'], ['cr', 1], ['ng'], ['cr', 0], ['undo'], ['undo'], ['rg', 0], ['redo']],
                     [['app', 0], ['ng'], ['ca', 0], ['undo'], ['cr', 1], ['undo'], ['redo'], ['redo']],
                     [['ext', 0, 1], ['ng'], ['cr', 1], ['rem', 0], ['undo'], ['ins', 0, 0], ['ins', 5, 2], ['rst'], ['rem', 1]],
-                    [['ext', 0, 1, 2], ['cr', 2], ['clr'], ['ng'], ['undo'], ['ca', 2], ['undo'], ['redo']]):
+                    [['ext', 0, 1, 2], ['cr', 2], ['clr'], ['ng'], ['undo'], ['ca', 2], ['undo'], ['redo']],
+                    # F26: a group created inside a delay block after a dataset was appended in it
+                    [['app', 0], ['ng'], ['dopen'], ['app', 1], ['ng'], ['dclose']],
+                    [['dopen'], ['app', 0], ['dopen'], ['ng'], ['dclose'], ['rem', 0], ['app', 0], ['ng'], ['dclose'], ['rem', 0]],
+                    # batched appends / removes (every queued message must reach the groups, in order)
+                    [['ng'], ['ng'], ['dopen'], ['app', 0], ['app', 1], ['dclose'], ['dopen'], ['rem', 0], ['rem', 1], ['dclose']],
+                    [['app', 0], ['ng'], ['dopen'], ['rem', 0], ['app', 0], ['rem', 0], ['dclose'], ['dopen'], ['app', 0], ['rem', 0], ['app', 0], ['dclose']],
+                    [['ext', 0, 1], ['ng'], ['dopen'], ['mrg', 0, 1], ['rg', 0], ['ng'], ['dopen'], ['seti', 0, 2], ['dclose'], ['undo'], ['dclose'], ['rst']]):
             yield [ND, nc, ops]
+        # exhaustive: one delay block around every non-empty sub-history of every core sequence
+        # (quick: blocks around a single op only for the sequences one shorter)
+        Lb = 4 if tier == "quick" else 5
+        for ops in sequences(CORE, Lb - 1):
+            if _canonical(ops) and tier == "quick":
+                for (i, j) in placements(Lb - 1):
+                    yield [ND, nc, with_block(ops, i, j)]
+        for ops in sequences(CORE, Lb):
+            if _canonical(ops):
+                for (i, j) in placements(Lb, 2 if tier == "quick" else 1):
+                    yield [ND, nc, with_block(ops, i, j)]
+        # exhaustive: two delay blocks (nested or in a row) around sub-histories of shorter sequences
+        # (quick: only sequences that create a group)
+        for ops in sequences(CORE, Lb - 1):
+            if _canonical(ops) and (tier != "quick" or ['ng'] in ops):
+                for blocked in two_blocks(ops):
+                    yield [ND, nc, blocked]
+        # exhaustive: every pair of (extended or core) ops next to each other inside one block
+        for pre in (BLOCK_PREFIXES[1:] if tier == "quick" else BLOCK_PREFIXES):
+            for x in INBLOCK:
+                for y in INBLOCK:
+                    ops = [list(o) for o in pre] + [['dopen'], list(x), list(y), ['dclose']]
+                    if _valid_refs(ops):
+                        yield [ND, nc, ops]
+                        if tier != "quick" or pre is BLOCK_PREFIXES[1]:
+                            yield [ND, nc, ops[:-1] + [['rem', 1], ['dclose'], ['app', 1]]]
+        # exhaustive: one extended op between two core ops, a block around it and a neighbour / both
+        for pre in sequences(CORE, 1):
+            for x in EXT:
+                for post in sequences(CORE, 1 if tier == "quick" else 2):
+                    ops = pre + [list(x)] + post
+                    if _valid_refs(ops) and _canonical(ops):
+                        for (i, j) in placements(len(ops), 2):
+                            yield [ND, nc, with_block(ops, i, j)]
         # exhaustive: one extended op (extend / merge / setitem / restore / setters) at any position
         # of a core sequence of length L-1 (quick: L-2 around it)
         Lx = 3 if tier == "quick" else 4
@@ -481,10 +591,10 @@ class SeqRandom(Seq):
     def cases(self, tier, rng):
         nc = self.colors
         n_short, n_long = (5000, 400) if tier == "quick" else (150000, 15000)
-        for _ in range(n_short):
-            yield [ND, nc, random_seq(rng, rng.randint(3, 10))]
-        for _ in range(n_long):
-            yield [ND, nc, random_seq(rng, rng.randint(11, 60), max_groups=5)]
+        for k in range(n_short):
+            yield [ND, nc, random_seq(rng, rng.randint(3, 10), delay=(0.0, 0.15, 0.3)[k % 3])]
+        for k in range(n_long):
+            yield [ND, nc, random_seq(rng, rng.randint(11, 60), max_groups=5, delay=(0.0, 0.1, 0.2)[k % 3])]
 
 
 def _run(case):
@@ -495,6 +605,8 @@ def _run(case):
     for op in ops:
         w.apply(op)
         snaps.append(w.snapshot())
+    while w.blocks:  # leave no block open (not observed: the history ends here)
+        w.blocks.pop().__exit__(None, None, None)
     w.keep.clear()
     return snaps
 
@@ -506,6 +618,11 @@ def _shrink(case):
         yield [n, nc, ops[:k]]
     for i in range(len(ops)):
         yield [n, nc, ops[:i] + ops[i + 1:]]
+    for i, a in enumerate(ops):
+        if a[0] == 'dopen':
+            for j in range(i + 1, len(ops)):
+                if ops[j][0] == 'dclose':
+                    yield [n, nc, ops[:i] + ops[i + 1:j] + ops[j + 1:]]
     for i, op in enumerate(ops):
         if op[0] in ('ext', 'mrg') and len(op) > 3:
             yield [n, nc, ops[:i] + [op[:-1]] + ops[i + 1:]]
@@ -516,8 +633,17 @@ def _shrink(case):
 
 def _features(ops):
     in_dc, removed, groups, f = set(), set(), 0, set()
+    depth = 0
     for op in ops:
         k = op[0]
+        if k == 'dopen':
+            depth += 1
+        elif k == 'dclose':
+            depth = max(0, depth - 1)
+        elif depth:
+            f.add('delay')
+            if k == 'ng':
+                f.add('delay-ng')
         if k == 'ng':
             groups += 1
         if k in ('app', 'ext', 'seti', 'ins'):
@@ -547,7 +673,10 @@ def _features(ops):
 for _cls in (Seq, SeqRandom):
     _cls.run_impl = lambda self, case: _run(case)
     _cls.shrink = lambda self, case: _shrink(case)
-    _cls.line = lambda self, case, pyout: __import__("harness.core", fromlist=["sx"]).sx(["seq", case, pyout])
+    # VERIF_C06_MODEL=seqold / sequ: compare with the model of the code before fix F3 / before fix F26
+    # (by hand, against an unfixed tree; see props.d/C06/design.md)
+    _cls.line = lambda self, case, pyout: __import__("harness.core", fromlist=["sx"]).sx(
+        [__import__("os").environ.get("VERIF_C06_MODEL", "seq"), case, pyout])
     _cls.nontrivial = lambda self, case, po: any(op[0] == 'ng' for op in case[2]) and any(op[0] in ('app', 'ext', 'ins', 'seti', 'mrg', 'ca') for op in case[2])
     _cls.signature = lambda self, case, po, res: {"construct": "+".join(sorted(_features(case[2]))) or "plain"}
 
@@ -555,12 +684,17 @@ for _cls in (Seq, SeqRandom):
 PROP = Property(
     id="C06",
     title="Every dataset in a collection carries exactly one subset per subset group",
-    theorems=["C06.inv_init", "C06.step_inv", "C06.reachable_inv", "C06.spec_of_inv", "C06.reachable_spec",
-              "C06.reachable_ordered", "C06.restore_roundtrip", "C06.old_removed_dataset_keeps_subsets", "C06.old_reappend_duplicates"],
+    theorems=["C06.inv_init", "C06.step_inv", "C06.reachable_inv", "C06.deliver_inv", "C06.close_restores_inv",
+              "C06.depth_of_history", "C06.quiescent_inv", "C06.spec_of_inv", "C06.reachable_spec",
+              "C06.reachable_ordered", "C06.restore_roundtrip", "C06.unguarded_group_in_block_duplicates",
+              "C06.immediate_step_inv", "C06.immediate_reachable_inv", "C06.immediate_agrees", "C06.immediate_inv_quiescent",
+              "C06.old_removed_dataset_keeps_subsets", "C06.old_reappend_duplicates"],
     families=[Seq(), SeqRandom()],
     trusted_base=["CPython list / dict-order semantics and WeakKeyDictionary iteration order (hub delivery order of the groups)",
+                  "the hub fragment (delay depth, queue, flush when the outermost block closes) is transcribed from hub.py and compared on every snapshot (depth, queued Add / Delete messages); that hub.py implements that semantics for arbitrary programs is C07's theorem",
                   "GlueSerializer / GlueUnSerializer are exercised, not modelled: `restore` models their effect on the collection bookkeeping only"],
     assumptions=["datasets enter the collection without subsets of their own (clients create subsets only through new_subset_group, as the module docstring of subset_group.py demands)",
-                 "after a session restore the restored objects stand for the saved ones; objects of the old session that were in the old collection are out of scope"],
-    rule="exhaustive: all sequences of exactly L core ops (append/remove x3 datasets, new group (<=2), remove group, clear; L=5 quick, 6 thorough) modulo dataset symmetry, every prefix checked through per-step snapshots; one extended op (extend/insert/merge/setitem/restore/setters/AddData-RemoveData commands/undo/redo) at every position of every core sequence of length 3 (quick) / 4 (thorough); all command/undo/redo words of length 4/5; all position-sensitive words of length 4/5 over {RemoveData x3, AddData, undo, redo, direct remove x2, insert in front, new group} after extend[0,1,2] + new group (undo must re-insert at the recorded, possibly stale, position); all pairs of extended ops after 1 (quick) / 2 (thorough) core ops; seeded random sequences up to length 60 with up to 5 groups and merged datasets. non-trivial = creates a group and adds a dataset",
+                 "after a session restore the restored objects stand for the saved ones; objects of the old session that were in the old collection are out of scope",
+                 "a session is not saved / restored while a hub.delay_callbacks() block is open (queued messages are not part of a session); hub.ignore_callbacks(DataCollectionAddMessage / DeleteMessage) blocks are out of scope (the client asks for the handlers not to run)"],
+    rule="exhaustive: all sequences of exactly L core ops (append/remove x3 datasets, new group (<=2), remove group, clear; L=5 quick, 6 thorough) modulo dataset symmetry, every prefix checked through per-step snapshots; one extended op (extend/insert/merge/setitem/restore/setters/AddData-RemoveData commands/undo/redo) at every position of every core sequence of length 3 (quick) / 4 (thorough); all command/undo/redo words of length 4/5; all position-sensitive words of length 4/5 over {RemoveData x3, AddData, undo, redo, direct remove x2, insert in front, new group} after extend[0,1,2] + new group (undo must re-insert at the recorded, possibly stale, position); all pairs of extended ops after 1 (quick) / 2 (thorough) core ops; seeded random sequences up to length 60 with up to 5 groups and merged datasets. Delay blocks (dopen / dclose = with hub.delay_callbacks()): one block around every sub-history of >= 2 ops of every core sequence of length 4 and around every non-empty sub-history of every core sequence of length 3 (quick) / every non-empty sub-history of every core sequence of length 5 (thorough); two blocks, nested or in a row, around sub-histories of every core sequence of length 3 that creates a group (quick) / of every core sequence of length 4 (thorough); every ordered pair of 32 extended / core ops next to each other inside one block after 2 (quick) / 3 prefixes, also followed by a remove inside and a re-append after the block (quick: for one of the prefixes); one extended op between two core ops with a block around it and a neighbour or both; two thirds of the random sequences mix in blocks nested up to 3. Snapshots (incl. hub depth and the queued Add / Delete messages) are compared after every op, inside blocks too; the Spec is evaluated at every snapshot with no block open. non-trivial = creates a group and adds a dataset",
 )
